@@ -8,7 +8,7 @@ import ast
 from ..absval import AbsState, ClsVal, Evaluator
 from ..astutil import AnalysisError, attr_chain, call_attr, dotted, iter_calls, kw, pattern_captures, src
 from ..facts import has_fact, path_facts
-from ..flow import path_calls
+from ..flow import case_index, path_calls
 from ..model import NONCONST, ClassInfo, FunctionInfo
 from ..paths import Path, env_at, resolve_name
 from ..props.common import (
@@ -670,6 +670,37 @@ def r17_conform(ctx: Ctx, rules: tuple[str, str, str] = ("R17.1", "R17.2", "R17.
             run.fail(r1, "conform(Select)", f"conform of an already conformed relation returns `{src(p.value)[:60]}` instead of the relation itself", fi=conform, node=p.node or conform.node, details=describe(p))
     if not hit:
         raise AnalysisError("no feasible path of conform for a Select argument")
+    # an operation gets onto a Select only through the placement functions: conform re-applies raw operation nodes by
+    # conforming their operands and handing them to _append_unary_to_select / _append_binary_to_select
+    from ..flow import denotes as _denotes
+
+    for kind, hook, fields in (("UnaryOperationRelation", "_append_unary_to_select", ("target",)), ("BinaryOperationRelation", "_append_binary_to_select", ("lhs", "rhs"))):
+        arm_paths = [(case_index(p, kind, r), p) for p in ctx.paths(conform)]
+        arm_paths = [(i, p) for i, p in arm_paths if i >= 0 and p.outcome == "return"]
+        if not arm_paths:
+            raise AnalysisError(f"sql conform has no returning {kind} arm")
+        for i, p in arm_paths:
+            v = p.value
+            vb = resolve_name(p, v.id) if isinstance(v, ast.Name) else v
+            inst = f"conform({kind})"
+            ok = isinstance(vb, ast.Call) and call_attr(vb) == hook and isinstance(vb.func, ast.Attribute) and src(vb.func.value) == "self" and len(vb.args) == 1 + len(fields)
+            if ok:
+                ok = _denotes(p, vb.args[0], r, ("operation",))
+                for a, fld in zip(vb.args[1:], fields):
+                    ab = resolve_name(p, a.id) if isinstance(a, ast.Name) else a
+                    ok = ok and isinstance(ab, ast.Call) and call_attr(ab) == "conform" and src(ab.func.value) == "self" and bool(ab.args) and _denotes(p, ab.args[0], r, (fld,))
+            if ok:
+                run.ok(r1, inst)
+            else:
+                run.fail(
+                    r1,
+                    inst,
+                    f"conform re-applies a raw {kind} with `{src(vb)[:70] if isinstance(vb, ast.AST) else '?'}` instead of self.{hook}(<operation>, {', '.join('self.conform(<' + x + '>)' for x in fields)}): "
+                    "only the placement functions know where an operation may go in a Select (below or above its slice, sort, DISTINCT, UNION) - any other route changes the rows or the order",
+                    fi=conform,
+                    node=p.node,
+                    details=describe(p),
+                )
 
     good = select_producing(ctx)
     for name in ("make_leaf", "conform", "materialize", "transfer", "append_unary", "append_binary", "make_doomed_relation", "make_join_identity_relation", "_append_unary_to_select", "_append_binary_to_select"):
